@@ -59,6 +59,12 @@ def templates(tier, seed=0):
             ts.append({'name': 'obj-assign-%d' % idx, 'src': '\n'.join(head + pre + ['%s = src' % pat] + prints) + '\n', 'assume': assume})
         if tier == 'thorough' or idx % 3 == 0:
             ts.append({'name': 'obj-param-%d' % idx, 'src': '\n'.join(head + ['fn f(%s) {' % pat] + ['    ' + p for p in prints] + ['}', 'print(f(src))']) + '\n', 'assume': assume})
+    # for-target patterns at the top level of the target (the target receives the pair [key, value])
+    fpats = ['p', '[k, v]', '[k, ..rest]', '[..rest]', '[k, v, ..rest]', '[_, v]', '[k, _]', '[k, [a, b]]', '[k, [a, ..r]]', '[k, {"x": a}]', '[a, a]', '[k]', '[k, v, w]', '{k}', '[k, ..[v]]', '_', '[_, ..r]']
+    fsrcs = ['[[@h10@, @h11@], [@h12@, @h13@, 5]]', '{"p": {"x": @h10@}, "q": {"x": @h11@, "y": 2}}', '"ab"', '[@h10@]', '[]']
+    for idx, pat in enumerate(fpats):
+        ns = names_of(pat); prints = ['    print(%s)' % n for n in ns] or ['    print(1)']
+        ts.append({'name': 'for-target-%d' % idx, 'src': '\n'.join(['s := @h0@'] + sel_ladder('src', 's', fsrcs) + ['for %s in src {' % pat] + prints + ['}', 'print(9)']) + '\n', 'assume': lambda v: [v['h0'] >= 0, v['h0'] < len(fsrcs)]})
     # inverse laws, stated in Seed
     flat = flat_sources(maxn); n = len(flat); a_n = (lambda n: (lambda v: [v['h0'] >= 0, v['h0'] < n, v['h1'] >= 0, v['h1'] < n]))(n)
     flat2 = [f.replace('@h1', '@h2') for f in flat]
